@@ -141,6 +141,7 @@ type podState struct {
 	ackDel       bool
 	leaked       bool
 	leakedRec    bool
+	poolIntact   bool // the daemon's pool still owns what its record for the pod names (model)
 }
 
 // World is one instantiated run.
@@ -176,6 +177,7 @@ type World struct {
 	pending   []chan struct{}
 
 	started      bool
+	storeOps     int
 	crashPending bool
 	nextDir      string
 	crashWhat    string
@@ -241,7 +243,9 @@ func (y *yieldStorage) Put(key string, value interface{}) error {
 		y.w.run.S.Log("store", "%s put %s -> injected error", y.name, key)
 		return fmt.Errorf("injected disk error")
 	}
+	y.w.storeOps++
 	err := y.inner.Put(key, value)
+	y.w.storeOps--
 	y.w.run.S.Log("store", "%s put %s -> %v", y.name, key, err)
 	y.w.seamEvent("store." + y.name + ".put done")
 	return err
@@ -281,7 +285,9 @@ func (y *yieldStorage) Delete(key string) error {
 	if y.name == "res" {
 		y.w.checkRecordDelete(key)
 	}
+	y.w.storeOps++
 	err := y.inner.Delete(key)
+	y.w.storeOps--
 	y.w.run.S.Log("store", "%s delete %s -> %v", y.name, key, err)
 	y.w.seamEvent("store." + y.name + ".delete done")
 	return err
@@ -306,6 +312,9 @@ func (w *World) openStores(dir string) error {
 		f := db.SimFile()
 		db.SimSetWriteAt(func(b []byte, off int64) (int, error) {
 			w.pageWrites++
+			if os.Getenv("VERIF_DEBUG_DISK") != "" {
+				w.run.S.Log("disk", "page write off=%d len=%d file=%s", off, len(b), f.Name())
+			}
 			w.seamEvent("disk.page-write")
 			return f.WriteAt(b, off)
 		})
